@@ -40,6 +40,7 @@ type runner struct {
 	daAuth      string
 	damsg       datypes.MsgServer
 	pendingPool []poolSpec // MsgCreatePool transactions queued in the current block
+	propDelta   *int64     // corpus: budget of the next PrepareProposal = candidates + metadata section - delta
 }
 
 type poolSpec struct {
@@ -199,6 +200,10 @@ func (rn *runner) blockCase(dt time.Duration, extra [][]byte, tag string) blockR
 		work = append(work, fmt.Sprintf("gauges%d", min(li.nGauges, 3)))
 		st.Count("block:with-gauges")
 	}
+	if li.allZero {
+		work = append(work, "zero-counts")
+		st.Count("block:all-gauge-counts-zero")
+	}
 	if allocated {
 		work = append(work, "alloc")
 		st.Count("block:emission-allocated-to-gauge-pools")
@@ -313,18 +318,29 @@ func (rn *runner) proposalCase(tag string) {
 	}
 	w.txSeq = seqSave // the filler is not part of the block that follows
 	full := size(cands)
-	max := emit.Pick(r, full, full, full+5, full+37, full+200, full/2, full-1, 10, 60, 1<<20)
 	verified, err := h.App.DaKeeper.GetSpecificStatusData(h.Ctx(), datypes.Status_STATUS_VERIFIED)
 	if err != nil {
 		panic(err)
 	}
+	split := size([][]byte{[]byte("METADATA")})
 	var entries []string
+	section := split
 	for _, d := range verified {
 		m := datypes.MetadataUriWrapper{MetadataUri: d.MetadataUri}
 		bz, _ := m.Marshal()
 		entries = append(entries, emit.ZI(size([][]byte{bz})))
+		section += size([][]byte{bz})
 	}
-	split := size([][]byte{[]byte("METADATA")})
+	if len(verified) == 0 {
+		section = 0
+	}
+	// budgets around the point where candidates + metadata section fill the block exactly: the
+	// default handler's share is then within 0..12 bytes of what the candidates need
+	max := emit.Pick(r, full, full+5, full+37, full+200, full/2, full-1, 10, 60, 1<<20,
+		full+section, full+section-int64(1+r.Intn(12)), full+section+int64(1+r.Intn(12)), full+section-int64(1+r.Intn(12)))
+	if rn.propDelta != nil {
+		max = full + section - *rn.propDelta
+	}
 	var resp *abci.PrepareProposalResponse
 	func() {
 		defer func() {
@@ -745,7 +761,7 @@ func (rn *runner) opClaimLP() {
 	}
 }
 
-var weightSets = [][]string{{"1"}, {"0.5", "0.5"}, {"0.3", "0.7"}, {"0.2", "0.3", "0.5"}, {"0.333333333333333333", "0.666666666666666667"}, {"0.1", "0.1"}, {"0.000000000000000001", "0.9"}}
+var weightSets = [][]string{{"0"}, {"0", "0"}, {"1"}, {"0.5", "0.5"}, {"0.3", "0.7"}, {"0.2", "0.3", "0.5"}, {"0.333333333333333333", "0.666666666666666667"}, {"0.1", "0.1"}, {"0.000000000000000001", "0.9"}}
 
 func (rn *runner) opVote() {
 	w, r := rn.w, rn.r
